@@ -179,7 +179,8 @@ func (c *Ctx) StrLit(s string) Term {
 		if c.strLits == nil {
 			c.strLits = map[string]string{}
 		}
-		for other, oname := range c.strLits {
+		for _, other := range sortedKeys(c.strLits) { // deterministic text: query hashes key the proof cache
+			oname := c.strLits[other]
 			if other != s {
 				c.decls = append(c.decls, decl{name + ".ne", fmt.Sprintf("(assert (distinct %s %s))", name, oname)})
 			}
